@@ -317,8 +317,9 @@ func checkHistory(ops []opRec, fwds []fwd) *verdict {
 func TestC18(t *testing.T) {
 	r := lib.Start(t, "C18")
 	defer r.Finish()
-	r.Rule("each case is one history on a fresh player with a current and (mostly) an in-flight serverConnection over recording backend conns: 1-4 phases; between phases backend states (play/config/login/handshake) change, the in-flight connection is promoted/dropped/replaced; inside a phase the two backends' read loops send KeepAlive ids from an alphabet of 2-4 (so ids repeat and collide across backends; 1 in 12 histories floods >64 distinct ids for LRU eviction) while 1-8 goroutines handle client replies concurrently (1 in 3 replies handled by several goroutines at once, some ids nobody sent); distinct = distinct (scripts, observed forward multiset)")
+	r.Rule("each case is one history on a fresh player with a current and (mostly) an in-flight serverConnection over recording backend conns: 1-4 phases; between phases backend states (play/config/login/handshake) change, the in-flight connection is promoted/dropped/replaced; inside a phase the two backends' read loops send KeepAlive ids from an alphabet of 2-4 (so ids repeat and collide across backends; 1 in 12 histories floods >64 distinct ids for LRU eviction) while 1-8 goroutines handle client replies concurrently (1 in 3 replies handled by several goroutines at once, some ids nobody sent); distinct = distinct (scripts, observed forward multiset). Second layer (e2e_test.go): sessions on a live in-process proxy with a fake client and manual fake backends (own keep-alive codec) walked through every client state in which a backend can ping - legacy initial connect before JoinGame (vanilla client: replies handled after the join; Forge client: initial-connect handler live), play, legacy switch with old and in-flight backend both pinging, 1.20.2+ CONFIG on the initial join / PLAY before the first JoinGame / switch target in LOGIN / CONFIG and PLAY of the switch / backend-initiated reconfiguration; per state 6-15 PRNG ops over {backend ping with an id from an alphabet of 3 shared by both backends, reply to a pending id, to an answered id, to an id nobody sent, to any alphabet id, echo of a proxy keep-alive, burst of one reply}, closed by a barrier round trip per live backend; distinct = (kind, protocol, script seed, states reached)")
 	r.Assume("stamps come from one atomic counter: sends/replies at the client boundary, forwards inside the recording backend's WritePacket")
+	r.Assume("e2e layer: every fake backend connection records all keep-alives it receives; pings/replies are stamped (one logical clock) before the write, receipts at the read; the k-th receipt of an id at a connection needs k earlier pings of that id by that connection and k earlier client replies of it")
 	r.Assume("hook verif_hooks_c18.go calls recordBackendKeepAlive/forwardKeepAlive exactly like the backend and client session handlers do")
 
 	n := r.N(4000, 96000)
